@@ -43,7 +43,7 @@ MINIMA = {'forbidden_call_refused': 100000, 'wire_frames_checked': 100000, 'wire
           'judged:headers-after-trailers-or-end': 1000, 'judged:informational-after-final': 150, 'judged:second-informational-block': 150,
           'judged:trailers-without-end-stream': 500, 'judged:client-opens-with-non-request': 1000,
           'judged:push-on-pushed-stream': 100, 'judged:second-final-block': 500, 'judged:client-headers-on-promised-stream': 500,
-          'permitted_call_succeeded': 80000, 'peer_continuation_frames': 20000}
+          'permitted_call_succeeded': 80000, 'header_blocks_spelt_sloppily': 5000, 'peer_continuation_frames': 20000}
 EXHAUSTIVE = {}
 
 REQ = [(b':method', b'GET'), (b':scheme', b'https'), (b':authority', b'example.com'), (b':path', b'/')]
@@ -91,6 +91,7 @@ def run_case(idx, rng, tier, rep):
         cfg = {'validate_outbound_headers': rng.random() < 0.3, 'normalize_outbound_headers': rng.random() < 0.5}
         rep.count('cases_with_outbound_validation_or_normalisation_off')
     validating = cfg.get('validate_outbound_headers', True)
+    normalizing = cfg.get('normalize_outbound_headers', True)
     if upgraded:
         h = scen.Hostile(e_client, handshake=False, cfg=cfg)
         t = h.t
@@ -392,6 +393,20 @@ def run_case(idx, rng, tier, rep):
             sid, kind, es = lc
         hl = {'request': rng.choice([REQ, REQ2]), 'final': rng.choice(FINALS), 'informational': rng.choice(INFOS),
               'trailers': rng.choice(TRAILERS)}[kind]
+        if normalizing and hl and rng.random() < 0.15:
+            # the same block spelt the way normalisation repairs: its place in the message is that of the repaired block
+            n0, v0 = hl[0]
+            how = rng.randrange(4)
+            if how == 0:
+                n0 = n0.title() if n0.startswith(b':') is False else b':' + n0[1:].title()
+            elif how == 1:
+                v0 = b' ' + v0
+            elif how == 2:
+                n0, v0 = n0.decode().upper(), v0.decode() + ' '
+            else:
+                n0 = b' ' + n0
+            hl = [(n0, v0)] + list(hl[1:])
+            rep.count('header_blocks_spelt_sloppily')
         prio = rng.random() < (0.12 if lc is None else 0.0)
         kw = {}
         if prio:
